@@ -613,6 +613,8 @@ def e_r7_reiterable_class_tables(p: Project, rep: Report):
                 bad = "a generator expression"
             elif isinstance(v, ast.Call) and isinstance(v.func, ast.Name) and v.func.id in ONE_SHOT:
                 bad = f"a {v.func.id}() object"
+            elif isinstance(v, ast.Call) and ((dotted(v.func) or "").startswith("itertools.") or (isinstance(v.func, ast.Name) and v.func.id in ("combinations", "permutations", "product", "chain", "islice", "starmap", "accumulate", "zip_longest", "pairwise"))):
+                bad = f"an {dotted(v.func)}() iterator"
             elif isinstance(v, ast.Call) and isinstance(v.func, ast.Name):
                 t_ = p.resolve(ci.module, v.func.id)
                 if isinstance(t_, _Func):
